@@ -32,9 +32,20 @@ def split_with_sc(data):
     return out
 
 
-def model_line(cfg, opts, nals):
+def model_line(cfg, opts, nals, data=None):
+    """`data` = the stream bytes: RPU NALs are given to the model with the trailing zero bytes the
+    implementation's NAL splitter attributes to them (they count toward the 25-byte minimum)"""
     o = "m=%s,crop=%d,discard=%d,drop=%d,annexb=%d" % ("-" if opts.get("mode") is None else CLI_MODE[opts["mode"]], opts.get("crop", 0), opts.get("discard", 0), opts.get("drop", 0), opts.get("annexb", 0))
-    return "route %s %s %s" % (cfg, o, ";".join(n.model() for n in nals))
+    seen = H.seen_payloads(data) if data is not None else None
+    if seen is not None and len(seen) != len(nals):
+        seen = None
+    parts = []
+    for i, n in enumerate(nals):
+        if seen is not None and n.type == 62 and seen[i].rstrip(b"\x00") == n.data.rstrip(b"\x00"):
+            parts.append(n.model(seen[i]))
+        else:
+            parts.append(n.model())
+    return "route %s %s %s" % (cfg, o, ";".join(parts))
 
 
 def parse_model(out):
@@ -168,7 +179,7 @@ def run(res):
             nals2 = nals[:idx] + [filler_nal] + nals[idx:]
             data2 = S.stream_bytes(C.rng(res.seed, "c05b"), nals2, sc="four", tz_prob=0)
             cases.append(("boundary cs=%d d=%d" % (cs, d), r.choice(["convert", "demux", "remove"]), {}, nals2, data2, cs))
-    lines = [model_line(CFG[cmd], opts, nals) for (k, cmd, opts, nals, data, cs) in cases]
+    lines = [model_line(CFG[cmd], opts, nals, data) for (k, cmd, opts, nals, data, cs) in cases]
     mo = C.run_sharded(C.model, lines)
     nrun = 0
     for (k, cmd, opts, nals, data, cs), m in zip(cases, mo):
@@ -200,7 +211,7 @@ def run(res):
             big = S.SNal(H.sei_nal([(200, H.filler(r, 99000 + d))]))
             nals2 = nals[:4] + [big] + nals[4:]
             data = S.stream_bytes(r, nals2, sc="four", tz_prob=0)
-            m = C.model().run([model_line("single", {}, nals2)])[0]
+            m = C.model().run([model_line("single", {}, nals2, data)])[0]
             inp = w.write("in.hevc", data)
             args, outs = cli_args("convert", {}, inp, w)
             ec, txt = cli.run(args, w.dir)
